@@ -295,8 +295,8 @@ def gen_dense(rng, it):
         w = min(_widths(v))
         cutoff = rng.uniform(0.13, 0.3) * w
         inv = np.linalg.inv(v)
-        ncl = 1 if mode == 0 else rng.randint(2, 3)
-        sizes = [rng.randint(42, 75)] if mode == 0 else [rng.randint(22, 48) for _ in range(ncl)]
+        ncl = 1 if mode == 0 else (2 if all(pbc) else rng.randint(2, 3))
+        sizes = [rng.randint(55, 95)] if mode == 0 else [rng.randint(28, 45) for _ in range(ncl)]
         first = [rng.choice([0.02, 0.5, 0.97, rng.random()]) for _ in range(3)]
         rel = []
         for c in range(ncl):
@@ -315,12 +315,18 @@ def gen_dense(rng, it):
         return _case(v, origin, pos, pbc, cutoff, 'float', init, delta)
     if mode == 3:
         # small periodic cell, cutoff around / above the cell widths: the ghosts fill the bins
-        v = _rand_cell(rng, kind) * 0.5
+        base = rng.uniform(1.5, 4.0)
+        v = np.diag([base * rng.uniform(0.85, 1.15) for _ in range(3)])
+        if kind != 'orth':
+            v[1, 0] = rng.uniform(-0.3, 0.3) * base
+            v[2, 1] = rng.uniform(-0.3, 0.3) * base
+        if kind == 'gen':
+            v = v[[2, 0, 1]] * np.array([[1.0], [-1.0], [1.0]])
         w = min(_widths(v))
-        cutoff = rng.uniform(0.85, 1.6) * w
+        cutoff = rng.choice([rng.uniform(0.9, 1.5), rng.uniform(1.5, 2.4)]) * w
         pbc = rng.choice([(True, True, True), (True, True, True), (True, True, False), (False, True, True),
                           (True, False, True)])
-        n = rng.randint(8, 26)
+        n = rng.randint(16, 30) if cutoff < 1.5 * w else rng.randint(9, 20)
         rel = [[rng.random() for _ in range(3)] for _ in range(n)]
         pos = np.array(rel) @ v + np.array(origin)
         return _case(v, origin, pos, pbc, cutoff, 'float', init, delta)
@@ -334,7 +340,7 @@ def gen_dense(rng, it):
         v[2, 1] = rng.randint(-8, 8) / q
     origin = [rng.randint(-8, 8) / q for _ in range(3)]
     base = [rng.choice([0.0, 1.0, 3.0]) for _ in range(3)]
-    n = rng.randint(45, 80)
+    n = rng.randint(55, 100)
     pts = [[base[k] + rng.randint(0, 8) / 4 for k in range(3)] for _ in range(n)]
     pos = np.array(pts) + np.array(origin) + (0.25 * v[1] + 0.25 * v[2]) * (it % 2)
     return _case(v, origin, pos, pbc, rng.choice([2.5, 3.0]), 'grid', init, delta)
